@@ -103,11 +103,11 @@ func bfsEvents(tier string) *BFSDef {
 		"write w/f", "chmod w/f", "rm w/f", "touch w/f", "mv w/f w/g",
 		"A w/d", "R w/d", "A w/f", "R w/f", "A w/d/s", "R w/d/s",
 	}
-	d, td := 2, 1
+	d, td, pd := 2, 0, 2
 	if tier == "thorough" {
-		d, td = 4, 2
+		d, td, pd = 4, 2, 3
 	}
-	return &BFSDef{Name: "events", Base: map[string]any{"fix": "std", "init": []string{"A w/d", "A w/f"}}, Alphabet: al, Depth: d, TailBurst: 3, TailDepth: td}
+	return &BFSDef{Name: "events", Base: map[string]any{"fix": "std", "init": []string{"A w/d", "A w/f"}}, Alphabet: al, Depth: d, TailBurst: 3, TailDepth: td, PairDepth: pd}
 }
 
 // nameShapes: entry names whose byte lengths make the kernel's 16-byte padding take every value.
